@@ -138,4 +138,78 @@ theorem run_sim (ops : List Op) (s : Sys) (r : Ref) (h : Rel s r) :
     simp only [Sys.run, Ref.run]
     rw [hs.1, ih _ _ hs.2]
 
+/-! ### continuation pools -/
+
+def CInv (s : CSys) : Prop :=
+  (s.live ++ s.pool.conts).Nodup ∧ ∀ c ∈ s.live ++ s.pool.conts, c < s.pool.nextId
+
+theorem cinv_init (cap : Nat) : CInv (CSys.init cap) := by
+  simp [CInv, CSys.init, CPool.new]
+
+theorem cinv_step (s : CSys) (op : COp) (h : CInv s) : CInv (s.step op) := by
+  obtain ⟨hnd, hlt⟩ := h
+  cases op with
+  | get =>
+    simp only [CSys.step, CPool.get]
+    cases hl : s.pool.conts with
+    | nil =>
+      simp only [hl, List.append_nil] at hnd hlt
+      refine ⟨?_, ?_⟩
+      · simp only [List.append_nil, List.nodup_cons]
+        exact ⟨fun hm => Nat.lt_irrefl _ (hlt _ hm), hnd⟩
+      · intro c hc
+        simp only [List.append_nil, List.mem_cons] at hc
+        rcases hc with rfl | hc
+        · exact Nat.lt_succ_self _
+        · exact Nat.lt_succ_of_lt (hlt c hc)
+    | cons c rest =>
+      rw [hl] at hnd hlt
+      refine ⟨?_, ?_⟩
+      · have hp : (s.live ++ c :: rest).Perm (c :: s.live ++ rest) := by
+          simp
+        exact (List.Perm.nodup_iff hp).mp hnd
+      · intro d hd
+        apply hlt
+        simp only [List.cons_append, List.mem_cons, List.mem_append] at hd ⊢
+        rcases hd with rfl | hd | hd
+        · right; left; rfl
+        · left; exact hd
+        · right; right; exact hd
+  | release c =>
+    simp only [CSys.step]
+    split
+    · rename_i hmem
+      simp only [CPool.release]
+      split
+      · refine ⟨?_, ?_⟩
+        · exact (List.Sublist.append (List.erase_sublist ..) (List.Sublist.refl _)).nodup hnd
+        · intro d hd
+          apply hlt
+          simp only [List.mem_append] at hd ⊢
+          rcases hd with hd | hd
+          · left; exact List.mem_of_mem_erase hd
+          · right; exact hd
+      · refine ⟨?_, ?_⟩
+        · have hp : (s.live ++ s.pool.conts).Perm (s.live.erase c ++ c :: s.pool.conts) := by
+            have h1 := (List.perm_cons_erase hmem).append_right s.pool.conts
+            exact h1.trans (by simpa using (List.perm_middle (a := c) (l₁ := s.live.erase c) (l₂ := s.pool.conts)).symm)
+          exact (List.Perm.nodup_iff hp).mp hnd
+        · intro d hd
+          apply hlt
+          simp only [List.mem_append, List.mem_cons] at hd ⊢
+          rcases hd with hd | rfl | hd
+          · left; exact List.mem_of_mem_erase hd
+          · left; exact hmem
+          · right; exact hd
+    · exact ⟨hnd, hlt⟩
+
+def CSys.run (s : CSys) : List COp → CSys
+  | [] => s
+  | op :: ops => CSys.run (s.step op) ops
+
+theorem cinv_run (ops : List COp) (s : CSys) (h : CInv s) : CInv (CSys.run s ops) := by
+  induction ops generalizing s with
+  | nil => exact h
+  | cons op ops ih => exact ih _ (cinv_step s op h)
+
 end GoluaVerif.Proofs.Pools
